@@ -71,6 +71,13 @@ def run(repo, rep):
              'final chunk for every length, including exact multiples of the fragment width (same analysis as C06.S2/S3)', 1)
     rep.rule('C10.X4', 'a limit of 0 reaching the fragmenters or the provider\'s socket read is treated as "no limit", not as a size', 3)
 
+    rep.rule('C10.X7', 'the announced maximum travels as the unsigned 32-bit big-endian field of the Maximum Length sub-item in both '
+             'directions, so every value up to 2^32-1 arrives as announced (same analysis as C02.L1-L3, C01.O1-O4 on that class)', 1)
+    from ..codec_rules import check_roundtrip, check_wire
+    from ..layout import LayoutExtractor
+    lx = LayoutExtractor(repo)
+    check_wire(lx, rep, prefix='C10', only=('MaximumLengthSubItem',), rule_map={'L1': 'X7', 'L2': 'X7', 'L3': 'X7', 'L5': 'X7'})
+
     # ---------------------------------------------------------------- X1 / X2
     facts = {}
     for cls, meth in (('AssociationAcceptor', 'accept'), ('AssociationRequester', '_request')):
